@@ -630,6 +630,12 @@ def percent_format(fmt, args):
             continue
         v = args[i] if i < len(args) else Opaque('missing-format-arg')
         i += 1
+        if mt.group(3) == 's' and not mt.group(2) and isinstance(v, Cat):
+            parts.extend(v.parts)       # %s of a string inserts it unchanged
+            continue
+        if mt.group(3) == 's' and not mt.group(2) and isinstance(v, Str):
+            parts.append(v.s)
+            continue
         parts.append(('fmt', v, mt.group(2) + mt.group(3), '%'))
     parts.append(fmt[pos:])
     r = Cat(parts)
